@@ -55,7 +55,7 @@ def _case(draw, tier):
     # a small per-case pool of algorithms makes repeated (pid, algorithm) questions likely
     apool = draw(st.lists(st.sampled_from(common.ALL_DIGESTS), min_size=1, max_size=2, unique=True))
     insts = draw(st.sampled_from([st.just(0), st.sampled_from([0, 0, 0, 1]), st.sampled_from([0, 1])]))
-    return {"cfg": cfg, "contents": cs, "ops": draw(st.lists(_op(apool, insts), min_size=1, max_size=12))}
+    return {"cfg": cfg, "contents": cs, "ops": draw(ops.history(_op(apool, insts), 1, 12))}
 
 
 def strategy(tier):
